@@ -150,6 +150,18 @@ class Prog:
         self.slots.append(slot)
         return slot
 
+    def scramble_block_order(self):
+        """Put live tensors into the (legal) state 'blocks stored in arbitrary order, _qdata_sorted=False' -- the state every
+        transposition leaves behind -- so that operations meet unsorted operands often.  Not observable by itself."""
+        for s in self.slots:
+            a = s.arr
+            if a.stored_blocks > 1 and self.rng.random() < 0.25:
+                perm = self.rng.permutation(a.stored_blocks)
+                a._data = [a._data[i] for i in perm]
+                a._qdata = np.ascontiguousarray(a._qdata[perm])
+                a._qdata_sorted = False
+                self.count('qdata.scrambled')
+
     def evict(self):
         while len(self.slots) > 6:
             k = int(self.rng.integers(len(self.slots) - 1))
@@ -210,6 +222,7 @@ class Prog:
     def step(self, name, fn):
         """Execute one op with all monitors.  Returns True if the op was applicable."""
         self.evict()
+        self.scramble_block_order()
         alias = self.alias_pairs()
         self._fresh = []
         snap = T.snapshot(self.slots, self.pool) if 'c03' in self.monitors else None
